@@ -235,3 +235,8 @@ func fmtObserved(v interface{}) string {
 // rest of the path. For harnesses where wall-clock time only feeds slow-logs and latency metrics: each such
 // comparison would otherwise double the number of paths. Natively a no-op (the real clock runs).
 func FreezeClock(unixNano int64) {}
+
+// InlineGoroutines makes every later go statement of the path run its goroutine to completion at the spawn
+// point (one legal schedule of a fork/join computation; a goroutine that would block is reported as
+// unmodelled, never silently skipped). Natively a no-op: the real scheduler runs.
+func InlineGoroutines() {}
